@@ -138,6 +138,7 @@ func init() { props["C15"] = runC15 }
 type c15Case struct {
 	Kind string `json:"kind"` // ticket | bytes | string
 	Hex  string `json:"hex"`
+	Orig string `json:"orig,omitempty"` // string cases: the unaltered string this one was derived from
 	Note string `json:"note,omitempty"`
 }
 
@@ -268,7 +269,7 @@ func runC15(r *Run) {
 				// accepted although altered
 				r.Count("oracle/violation")
 				r.Violate("altered string accepted: "+o.String(), "C15/alter-string-accepted",
-					map[string]string{"kind": "string", "hex": decHex([]byte(v)), "orig": decHex([]byte(str))})
+					c15Case{Kind: "string", Hex: decHex([]byte(v)), Orig: decHex([]byte(str))})
 			}
 		}
 		r.Emit(fmt.Sprintf("C15 mutstr %d %s", mode, decHex([]byte(str))), string(outS))
@@ -291,7 +292,14 @@ func runC15(r *Run) {
 			r.Emit("C15 de "+decHex(b), decDeserialize(b).String())
 		case "string":
 			b := decUnhex(c.Hex)
-			r.Emit("C15 dstr "+decHex(b), decDecodeString(string(b)).String())
+			o := decDecodeString(string(b))
+			r.Emit("C15 dstr "+decHex(b), o.String())
+			// an alteration of a valid string must be rejected
+			if c.Orig != "" && c.Orig != c.Hex && o.Class != "err" {
+				r.Count("oracle/violation")
+				r.Violate("altered string accepted: "+o.String(), "C15/alter-string-accepted",
+					c15Case{Kind: "string", Hex: c.Hex, Orig: c.Orig})
+			}
 		}
 	}
 	if r.ReplayFile != "" {
